@@ -917,7 +917,59 @@ pub fn initial_matcher(seed: u64, shard: u64, epoch: u64) -> Matcher {
     Matcher::new(RCfg::from_index((mix(&[seed, shard, epoch, 77]) % RCfg::COUNT as u64) as usize).real())
 }
 
+/// Texts containing U+000B (which the byte and the code point representation classify differently, so the reference model
+/// and the cross-representation comparisons leave it out): within one representation the score-only and the indices
+/// variant of every entry point still have to agree, and a match still reports one index per needle character.
+fn vertical_tab_cases(opts: &MatchOpts, rep: &mut Report) {
+    let mut matcher = initial_matcher(opts.seed, opts.shard, 9);
+    let alphabet = ['a', 'b', ' ', '\u{b}', '\u{b}', '/', 'A', '\t'];
+    for k in 0..6000u64 {
+        let mut rng = Rng::new(mix(&[opts.seed, opts.shard, k, 0x0b]));
+        let cfg = gen_cfg(&mut rng, false);
+        let hl = rng.range(1, 9);
+        let hay = gen_text(&mut rng, &alphabet, hl);
+        let nl = rng.range(1, 4).min(hl);
+        let mut needle: Vec<char> = if rng.coin() {
+            let s = rng.below(hl - nl + 1);
+            hay[s..s + nl].to_vec()
+        } else {
+            gen_text(&mut rng, &alphabet, nl)
+        };
+        normalize_needle(&mut needle, &cfg);
+        let (ht, nt) = (Text::new(hay), Text::new(needle));
+        matcher.config = cfg.real();
+        for ascii_repr in [true, false] {
+            for algo in ALGOS {
+                rep.count("c03.vertical-tab-calls");
+                let mut idx = Vec::new();
+                let r = caught(|| (call(&mut matcher, algo, ht.view(ascii_repr), nt.view(ascii_repr), None), call(&mut matcher, algo, ht.view(ascii_repr), nt.view(ascii_repr), Some(&mut idx))));
+                let bad = match &r {
+                    Ok((a, b)) => a != b || (b.is_some() && idx.len() != nt.len()),
+                    Err(_) => true,
+                };
+                if bad {
+                    rep.violation(
+                        "C03",
+                        "score-variants-differ",
+                        format!("vertical-tab|{}", algo.name()),
+                        jobj! {"haystack" => show_chars(&ht.chars), "needle" => show_chars(&nt.chars), "config" => format!("{cfg:?}"), "held_as_bytes" => ascii_repr,
+                               "result" => format!("{r:?}"), "indices" => idx.iter().map(|&x| x as u64).collect::<Vec<u64>>(),
+                               "case_id" => format!("{}:{}:vt{}", opts.seed, opts.shard, k)},
+                    );
+                    if r.is_err() {
+                        matcher = initial_matcher(opts.seed, opts.shard, 9);
+                    }
+                    return;
+                }
+            }
+        }
+    }
+}
+
 pub fn run(opts: &MatchOpts, props: &Props, pools: &Pools, rep: &mut Report) {
+    if props.c03 && opts.replay.is_none() && !opts.long_only && opts.shard % 4 == 1 {
+        vertical_tab_cases(opts, rep);
+    }
     let mut matcher = initial_matcher(opts.seed, opts.shard, 0);
     let range: Box<dyn Iterator<Item = u64>> = match opts.replay {
         // the cases of a block share the matcher state: replay the block up to the case
